@@ -248,3 +248,92 @@ func isValueOfStringConst(p *Prog, v ssa.Value) bool {
 	b, ok := mi.X.Type().Underlying().(*types.Basic)
 	return ok && b.Info()&(types.IsString|types.IsNumeric|types.IsBoolean) != 0
 }
+
+// ruleSelfPrintingValues: a type whose String() prints a *Value it holds is itself printed through Value.String()
+// (it is a Stringer inside a Value). If such an object can hold a Value that holds the object itself, printing never
+// returns and the process dies of stack exhaustion. The field may therefore only be given a Value that was shown not to
+// hold an object of that type, or the content of another such object (which by the same rule holds none).
+func ruleSelfPrintingValues(p *Prog, a *Anchors, r *Report, rule string) {
+	r.Begin(rule, "an object whose String() prints a *Value it holds is never given a Value that holds such an object (itself): {% cycle x as x %}{% cycle x %} cannot build a value that prints forever", 1)
+	valPtr := types.NewPointer(a.Value)
+	n := 0
+	for _, f := range p.Funcs {
+		if !p.InPkg(f) || f.Name() != "String" || f.Signature.Recv() == nil || f.Blocks == nil {
+			continue
+		}
+		T := structOf(f.Signature.Recv().Type())
+		if T == nil || T == a.Value {
+			continue
+		}
+		// String() calls (*Value).String on a field of the receiver
+		field := ""
+		for _, b := range f.Blocks {
+			for _, in := range b.Instrs {
+				c, ok := in.(*ssa.Call)
+				if !ok || c.Common().StaticCallee() == nil || c.Common().StaticCallee().Name() != "String" || len(c.Common().Args) != 1 {
+					continue
+				}
+				if !types.Identical(c.Common().Args[0].Type(), valPtr) {
+					continue
+				}
+				if _, tn, fl := fieldLoadBase(c.Common().Args[0]); tn == T {
+					field = fl
+				}
+			}
+		}
+		if field == "" {
+			continue
+		}
+		tname := T.Obj().Name()
+		p.EachInstr(func(g *ssa.Function, in ssa.Instruction) {
+			st, ok := in.(*ssa.Store)
+			if !ok || !isFieldAddrOf(st.Addr, tname, field) {
+				return
+			}
+			n++
+			key := p.FuncName(g) + ":" + tname + "." + field + "="
+			okv := func(v ssa.Value, pred, succ *ssa.BasicBlock) bool {
+				// the content of another object of the type
+				if _, tn, fl := fieldLoadBase(v); tn == T && fl == field {
+					return true
+				}
+				// shown (on every path to the store / to this phi edge) not to hold an object of the type: the false
+				// edge of a type assertion of v.Interface() to *T
+				ep := func(c ssa.Value, pol bool) bool {
+					ex, ok := c.(*ssa.Extract)
+					if !ok || ex.Index != 1 || pol {
+						return false
+					}
+					ta, ok := ex.Tuple.(*ssa.TypeAssert)
+					if !ok || structOf(ta.AssertedType) != T {
+						return false
+					}
+					ic, ok := ta.X.(*ssa.Call)
+					return ok && len(ic.Common().Args) == 1 && (ic.Common().Args[0] == v || p.VN(ic.Common().Args[0]) == p.VN(v))
+				}
+				if pred != nil {
+					return edgeGuardedBy(pred, succ, ep)
+				}
+				return Guarded(in, ep)
+			}
+			all := true
+			if phi, isPhi := st.Val.(*ssa.Phi); isPhi {
+				for i, v := range phi.Edges {
+					if !okv(v, phi.Block().Preds[i], phi.Block()) {
+						all = false
+					}
+				}
+			} else if !okv(st.Val, nil, nil) {
+				all = false
+			}
+			if all {
+				r.OK(key, p.InstrPos(in), "the stored Value was shown not to hold a %s (or is the content of one)", tname)
+			} else {
+				r.Bad(key, p.InstrPos(in), "%s.%s is given %s without a test that it does not hold a %s itself: the object can end up holding itself, and %s.String() ↔ Value.String() then recurse until the stack is exhausted (an unrecoverable crash of the process)", tname, field, p.VN(st.Val), tname, tname)
+			}
+		})
+	}
+	if n == 0 {
+		r.Trivial("none", "-", "no type prints a *Value it holds")
+	}
+}
